@@ -4,6 +4,7 @@ import ast
 from ..model import (AnalysisError, FUNC_TYPES, U, call_attr, call_name, dotted, enclosing, enclosing_function, guard_texts, guards_ex,
                      short, walk_body, walk_local, ancestors, parent, const_str, kwarg, literal)
 from ..util import params, find_calls, assigns_to, trace, stmt_of, has_exit, syn_dominates
+from .. import feat
 from ..cfg import CFG, ENTRY, EXIT, RAISE, handler_names, is_catch_all
 
 CORE = "insights.core"
@@ -40,17 +41,178 @@ def r1_validation_first(cx):
     ok = bool(rs) and "ContentException" in U(rs[0].exc) and ("valid_lines", False) in guard_texts(rs[0])
     cx.require(ok, rs[0] if rs else fn, "invalid content raises ContentException (no object is produced)", construct=short(rs[0], 80) if rs else "(no raise)")
     defs = assigns_to(fn, "valid_lines")
-    ok = len(defs) == 2
-    if ok:
-        d0, d1 = defs
-        c0 = d0.value
-        ok = isinstance(c0, ast.Call) and U(c0.func) == "self.validate_lines" and U(c0.args[0]) == "%s.content" % ctxp and "bad_single_lines" in U(c0.args[1]) and U(c0.args[2]).endswith("__bad_lines") \
-            and not guard_texts(d0)
-        c1 = d1.value
-        ok = ok and isinstance(c1, ast.Call) and U(c1.func) == "self.validate_lines" and U(c1.args[0]) == "%s.content" % ctxp and U(c1.args[1]) == U(c1.args[2]) == "extra_bad_lines" \
-            and set(guard_texts(d1)) == set([("valid_lines", True), ("extra_bad_lines", True)])
-    cx.require(ok, defs[0] if defs else fn, "valid_lines = validate_lines(content, <single-line table>, <multi-line table>), and additionally against the extra phrases when given",
-               construct=" ; ".join(short(d, 110) for d in defs))
+    verdict, why = _phrases_enforced(fn, ctxp, stmt_of(s))
+    if verdict is None:
+        cx.unknown(fn, "phrase tables reaching validate_lines not recognised: %s" % why)
+    else:
+        cx.require(verdict, defs[0] if defs else fn, "on every path to the parser the content passed validate_lines against the built-in single-line and multi-line tables, "
+                   "and against the extra phrases (in both positions) whenever extra phrases were given", construct=why)
+
+
+def _phrases_enforced(fn, ctxp, sup_stmt):
+    """Path rule.  Phrase sources: S = class single-line table, M = class multi-line table, X = extra_bad_lines.  For every feasible path from
+    the entry to super().__init__, the validate_lines calls whose result is known truthy on that path must cover S (single position) and M (multi
+    position), cover X in both positions unless the path implies X is falsy, and use no other source.  Truthiness facts are decided by truth table
+    over the names tested on the path (a name is a new atom after every assignment that does not preserve its truthiness).
+    Returns (True/False, text) or (None, reason)."""
+    import itertools
+    ps = params(fn)
+    extra = ps[2] if len(ps) > 2 else None
+    PRESERVING = lambda n: ("list(%s)" % n, "tuple(%s)" % n, "%s or []" % n, "[] if %s is None else %s" % (n, n), "%s if %s else []" % (n, n), "%s if %s is not None else []" % (n, n),
+                            "[] if not %s else %s" % (n, n), "%s or ()" % n, "() if %s is None else %s" % (n, n))
+    notes = []
+    all_ok = True
+    reached = 0
+    try:
+        pths = feat.paths(fn.body)
+    except ValueError:
+        return None, "too many paths"
+    for trail, end in pths:
+        idx = [i for i, t in enumerate(trail) if t[0] == "stmt" and t[1] is sup_stmt]
+        if not idx:
+            continue
+        trail = trail[:idx[0]]
+        env = {}        # name -> (frozenset of sources, fresh?)
+        if extra:
+            env[extra] = (frozenset("X"), False)
+        ver = {}
+        facts, checks = [], []
+
+        def ev(e):
+            t = U(e)
+            if isinstance(e, ast.Attribute) and e.attr.endswith("__bad_single_lines"):
+                return frozenset("S"), False
+            if isinstance(e, ast.Attribute) and e.attr.endswith("__bad_lines"):
+                return frozenset("M"), False
+            if isinstance(e, ast.Name):
+                return env.get(e.id, (None, False))
+            if isinstance(e, (ast.List, ast.Tuple)) and not e.elts:
+                return frozenset(), True
+            if isinstance(e, ast.BinOp) and isinstance(e.op, ast.Add):
+                a, b = ev(e.left), ev(e.right)
+                return (None, True) if a[0] is None or b[0] is None else (a[0] | b[0], True)
+            if isinstance(e, ast.Call) and call_name(e) in ("list", "tuple", "sorted") and len(e.args) == 1 and not e.keywords:
+                return ev(e.args[0])[0], True
+            if isinstance(e, ast.BoolOp) and isinstance(e.op, ast.Or) and len(e.values) == 2 and isinstance(e.values[1], (ast.List, ast.Tuple)) and not e.values[1].elts:
+                return ev(e.values[0])
+            if isinstance(e, ast.IfExp):
+                a, b = ev(e.body), ev(e.orelse)
+                return (None, False) if a[0] is None or b[0] is None else (a[0] | b[0], a[1] and b[1])
+            return None, False
+
+        def versioned(e):
+            """boolean structure over atoms (name, version) / opaque text"""
+            if isinstance(e, ast.BoolOp):
+                return ("and" if isinstance(e.op, ast.And) else "or", [versioned(v) for v in e.values])
+            if isinstance(e, ast.UnaryOp) and isinstance(e.op, ast.Not):
+                return ("not", [versioned(e.operand)])
+            if isinstance(e, ast.Name):
+                return ("atom", (e.id, ver.get(e.id, 0)))
+            names = sorted(set((x.id, ver.get(x.id, 0)) for x in ast.walk(e) if isinstance(x, ast.Name)))
+            return ("atom", (U(e), tuple(names)))
+        bad = None
+        for item in trail:
+            if item[0] == "cond":
+                try:
+                    ce = ast.parse(item[1], mode="eval").body
+                except SyntaxError:
+                    continue
+                facts.append((versioned(ce), item[2]))
+                continue
+            st = item[1]
+            if isinstance(st, ast.Assign) and len(st.targets) == 1 and isinstance(st.targets[0], ast.Name):
+                n = st.targets[0].id
+                c = st.value
+                if isinstance(c, ast.Call) and U(c.func) == "self.validate_lines":
+                    ver[n] = ver.get(n, 0) + 1
+                    if len(c.args) != 3 or c.keywords or U(c.args[0]) != "%s.content" % ctxp:
+                        bad = "validate_lines is not given the content and the two tables: %s" % short(c, 90)
+                        break
+                    checks.append(((n, ver[n]), ev(c.args[1])[0], ev(c.args[2])[0], short(c, 90)))
+                    env.pop(n, None)
+                    continue
+                val = ev(c)
+                if U(c) not in PRESERVING(n):
+                    ver[n] = ver.get(n, 0) + 1
+                if val[0] is None:
+                    env.pop(n, None)
+                else:
+                    env[n] = val
+            elif isinstance(st, ast.AugAssign) and isinstance(st.target, ast.Name) and st.target.id in env:
+                cur = env[st.target.id]
+                add = ev(st.value)
+                if not cur[1]:
+                    bad = "in-place extension of a table that is not a fresh copy (%s): the class-level table would grow with every parser" % short(st, 80)
+                    break
+                env[st.target.id] = (None if add[0] is None or cur[0] is None else cur[0] | add[0], True)
+                ver[st.target.id] = ver.get(st.target.id, 0) + 1
+            elif isinstance(st, ast.Expr) and isinstance(st.value, ast.Call) and call_attr(st.value) in ("extend", "append", "insert", "remove", "pop", "clear") and isinstance(st.value.func.value, ast.Name) \
+                    and st.value.func.value.id in env:
+                n = st.value.func.value.id
+                cur = env[n]
+                if not cur[1]:
+                    bad = "in-place change of a table that is not a fresh copy (%s)" % short(st, 80)
+                    break
+                add = ev(st.value.args[0]) if call_attr(st.value) == "extend" and st.value.args else (None, False)
+                env[n] = (None if add[0] is None or cur[0] is None else cur[0] | add[0], True)
+                ver[n] = ver.get(n, 0) + 1
+            else:
+                for x in ast.walk(st):
+                    if isinstance(x, ast.Name) and isinstance(x.ctx, ast.Store):
+                        env.pop(x.id, None)
+                        ver[x.id] = ver.get(x.id, 0) + 1
+        if bad:
+            return False, bad
+        atoms = []
+
+        def collect(f):
+            if f[0] == "atom":
+                if f[1] not in atoms:
+                    atoms.append(f[1])
+            else:
+                for g_ in f[1]:
+                    collect(g_)
+        for f, pol in facts:
+            collect(f)
+        for c in checks:
+            if c[0] not in atoms:
+                atoms.append(c[0])
+        xa = (extra, 0)
+        if extra and xa not in atoms:
+            atoms.append(xa)
+        if len(atoms) > 14:
+            return None, "too many conditions on one path"
+
+        def val(f, a):
+            if f[0] == "atom":
+                return a[f[1]]
+            if f[0] == "not":
+                return not val(f[1][0], a)
+            vs = [val(g_, a) for g_ in f[1]]
+            return all(vs) if f[0] == "and" else any(vs)
+        sat = []
+        for bits in itertools.product((False, True), repeat=len(atoms)):
+            a = dict(zip(atoms, bits))
+            if all(val(f, a) == pol for f, pol in facts):
+                sat.append(a)
+        if not sat:
+            continue          # infeasible path
+        reached += 1
+        enforced = [c for c in checks if all(a[c[0]] for a in sat)]
+        if any(c[1] is None or c[2] is None for c in enforced):
+            return None, "a table argument of %s is not built from the class tables and the extra phrases" % [c[3] for c in enforced if c[1] is None or c[2] is None][0]
+        single = frozenset().union(*[c[1] for c in enforced]) if enforced else frozenset()
+        multi = frozenset().union(*[c[2] for c in enforced]) if enforced else frozenset()
+        x_possible = bool(extra) and any(a[xa] for a in sat)
+        want_s = set("S") | (set("X") if x_possible else set())
+        want_m = set("M") | (set("X") if x_possible else set())
+        ok = want_s <= single <= set("SX") and want_m <= multi <= set("MX")
+        notes.append("path[%s]: single-line position %s, multi-line position %s%s" % (
+            "extra given" if x_possible else "no extra", "+".join(sorted(single)) or "-", "+".join(sorted(multi)) or "-", "" if ok else "  <-- incomplete"))
+        all_ok = all_ok and ok
+    if not reached:
+        return False, "no feasible path reaches the parser"
+    return all_ok, "; ".join(sorted(set(notes))) + "  (S/M = class single-/multi-line table, X = extra_bad_lines)"
 
 
 def r2_tables(cx, descendants):
